@@ -23,7 +23,7 @@ pub fn gen_script(rng: &mut Rng, sc: &Scenario, d: &DataGen, cfg: ScriptCfg) -> 
     let mut fitted = 0usize;
     // a second fit on the already fitted problem (refit) is allowed occasionally
     let max_fits = if rng.chance(0.15) { 2 } else { 1 };
-    let mut converted = false;
+    let mut converted = 0;
     while ops.len() < n_ops {
         let r = rng.unit();
         if r < 0.42 {
@@ -46,9 +46,10 @@ pub fn gen_script(rng: &mut Rng, sc: &Scenario, d: &DataGen, cfg: ScriptCfg) -> 
                 ops.push(Op::CloneAndCompare);
             }
         } else if r < 0.88 {
-            if cfg.allow_into_seq && !converted {
-                converted = true;
-                ops.push(Op::IntoSequential);
+            // conversions between the flavours, at most two per script
+            if cfg.allow_into_seq && converted < 2 {
+                converted += 1;
+                ops.push(if rng.chance(0.6) { Op::IntoSequential } else { Op::IntoParallel });
             }
         } else if r < 0.88 + cfg.p_fit && fitted < max_fits {
             fitted += 1;
@@ -75,6 +76,7 @@ pub fn op_name(op: &Op) -> &'static str {
         Op::WeightedData => "WeightedData",
         Op::CloneAndCompare => "CloneAndCompare",
         Op::IntoSequential => "IntoSequential",
+        Op::IntoParallel => "IntoParallel",
         Op::Fit => "Fit",
         Op::FitWithStatistics => "FitWithStatistics",
         Op::Band(_) => "Band",
